@@ -85,13 +85,13 @@ var props = []*core.Property{
 		technique:  "finite-domain tabulation with forking walk; failed-edge propagation rule on the scanner's CFGs; provenance of the entry's results",
 		expl:       "decides the decision logic around the scanner, not the scanner's grammar",
 		notCovered: []string{"completeness of the scanner for every RFC 8259 document and every cut point (grammar-level; not decided)"},
-		rules:      []*core.Rule{ruleTruncTable, ruleFailProp, ruleParseResults, ruleAccounting, ruleLexTables, ruleCap, ruleJSONNodes, ruleTokenGate, ruleSnapshot, rulePools}}),
+		rules:      []*core.Rule{ruleTruncTable, ruleFailProp, ruleParseResults, ruleAccounting, ruleLexTables, ruleCap, ruleDepthCost, ruleJSONNodes, ruleTokenGate, ruleSnapshot, rulePools}}),
 	mk(pd{id: "C09", level: "other",
 		levelText:  "Necessary conditions of JSON soundness: failure propagation; whole-mode acceptance is parsed == len; per-byte tables of every structural byte test in the container loops (only ',' continues, only the matching closer closes, '\"' starts a key, ':' follows it, everything else fails), value dispatch table; first-token gate.",
 		technique:  "finite-domain tabulation of byte dispatches (256 values each) with helper-call folding; failed-edge propagation",
 		expl:       "decides the structural byte discipline of the container scanners and the acceptance decision",
 		notCovered: []string{"soundness of the scalar scanners (strings, numbers, literals) for every non-JSON string"},
-		rules:      []*core.Rule{ruleFailProp, ruleTruncTable, ruleParseResults, ruleAccounting, ruleSeparators, ruleLexTables, ruleTokenGate, rulePools, ruleSnapshot}}),
+		rules:      []*core.Rule{ruleFailProp, ruleCap, ruleTruncTable, ruleParseResults, ruleAccounting, ruleSeparators, ruleLexTables, ruleTokenGate, rulePools, ruleSnapshot}}),
 	mk(pd{id: "C10", level: "other",
 		levelText:  "Path-stack push/pop balance on every success path and no underflow; query tables equal the RFC 7946 / HAR / glTF specification tables; query discipline: every key is matched against every query by full path equality, the member is judged right after its value and before any other exit, the verdict flag is only set under match and value equality and never cleared; detector/query/node agreement and sibling order.",
 		technique:  "counting typestate over the scanner CFGs; constant folding of the query table; shape and dominance rules on the object scanner",
